@@ -25,7 +25,7 @@ type c09Case struct {
 }
 
 func preflight(url, origin, method, headers string) h.Req {
-	q := h.Req{Method: "OPTIONS", Segs: []string{url}, Hdr: [][2]string{{"Origin", origin}, {"Access-Control-Request-Method", method}}}
+	q := h.Req{Method: "OPTIONS", Segs: strings.Split(url, "/"), Hdr: [][2]string{{"Origin", origin}, {"Access-Control-Request-Method", method}}}
 	if headers != "-" {
 		q.Hdr = append(q.Hdr, [2]string{"Access-Control-Request-Headers", headers})
 	}
@@ -36,7 +36,7 @@ func preflight(url, origin, method, headers string) h.Req {
 func routable(t corsWorld, url string) []string {
 	var out []string
 	for _, m := range []string{"GET", "PUT", "POST", "DELETE", "OPTIONS", "PATCH", "HEAD"} {
-		r := t.do(h.Req{Method: m, Segs: []string{url}})
+		r := t.do(h.Req{Method: m, Segs: strings.Split(url, "/")})
 		if r.Code != 404 && r.Code != 405 {
 			out = append(out, m)
 		}
@@ -191,11 +191,16 @@ func replayC09(detail json.RawMessage) error {
 		return fmt.Errorf("answer depends on earlier preflights")
 	}
 	t := corsBuild(c.Cfg, false)
-	if why := judgeC09(c.Cfg, q, last, t.do(q), routable(t, q.Segs[0])); why != "" {
+	if why := judgeC09(c.Cfg, q, last, t.do(q), routable(t, strings.Join(q.Segs, "/"))); why != "" {
 		return fmt.Errorf("%s", why)
 	}
 	return nil
 }
+
+// c09URLs: u1 (GET PUT POST OPTIONS), u2 (DELETE), an unknown URL, and the URLs of two routes
+// whose path variable has a regular expression with its own capturing group: GET /d/{id} and
+// POST /d/{id}/c.
+var c09URLs = []string{"u1", "u2", "nope", "d/42", "d/42/c", "d/x"}
 
 func c09Alphabet() []h.Req {
 	var alphabet []h.Req
@@ -230,7 +235,7 @@ func checkC09(run *h.Run) {
 		}
 	}
 	var reqs []h.Req
-	for _, url := range []string{"u1", "u2", "nope"} {
+	for _, url := range c09URLs {
 		for _, origin := range []string{corsE1, strings.ToUpper(corsE1), "http://evil.test"} {
 			for _, m := range []string{"GET", "PUT", "DELETE", "POST", "get", "PATCH"} {
 				for _, hs := range []string{"-", "X-A", "x-a", "X-A, X-B", "X-A,X-C", " X-A ", "X-C", "X-A,,X-B"} {
@@ -238,7 +243,13 @@ func checkC09(run *h.Run) {
 				}
 			}
 			for _, m := range []string{"GET", "PUT", "OPTIONS", "DELETE"} {
-				reqs = append(reqs, h.Req{Method: m, Segs: []string{url}, Hdr: [][2]string{{"Origin", origin}}})
+				reqs = append(reqs, h.Req{Method: m, Segs: strings.Split(url, "/"), Hdr: [][2]string{{"Origin", origin}}})
+			}
+			// not a preflight: a method other than OPTIONS that (oddly) carries Access-Control-Request-Method
+			for _, m := range []string{"GET", "PUT", "DELETE"} {
+				for _, acrm := range []string{"PUT", "PATCH"} {
+					reqs = append(reqs, h.Req{Method: m, Segs: strings.Split(url, "/"), Hdr: [][2]string{{"Origin", origin}, {"Access-Control-Request-Method", acrm}}})
+				}
 			}
 		}
 	}
@@ -248,7 +259,7 @@ func checkC09(run *h.Run) {
 		cfg := cfgs[i]
 		w, t := corsBuild(cfg, true), corsBuild(cfg, false)
 		rt := map[string][]string{}
-		for _, u := range []string{"u1", "u2", "nope"} {
+		for _, u := range c09URLs {
 			rt[u] = routable(t, u)
 		}
 		for _, q := range reqs {
@@ -259,11 +270,11 @@ func checkC09(run *h.Run) {
 			if cfg.allowed(q.Header("Origin")) {
 				results[i].nontriv++
 			}
-			if why := judgeC09(cfg, q, got, twin, rt[q.Segs[0]]); why != "" {
+			if why := judgeC09(cfg, q, got, twin, rt[strings.Join(q.Segs, "/")]); why != "" {
 				q := q
 				run.Violate("preflight", "", fmt.Sprintf("%+v ; %v : %s", cfg, q, why), c09Case{Cfg: cfg, Seq: []h.Req{q}, Got: got}, func() bool {
 					t2 := corsBuild(cfg, false)
-					return judgeC09(cfg, q, corsBuild(cfg, true).do(q), t2.do(q), routable(t2, q.Segs[0])) != ""
+					return judgeC09(cfg, q, corsBuild(cfg, true).do(q), t2.do(q), routable(t2, strings.Join(q.Segs, "/"))) != ""
 				})
 			} else if results[i].cases%2111 == 0 {
 				run.Sample(map[string]any{"cfg": cfg, "request": q.String(), "answer": got.key()})
@@ -372,7 +383,7 @@ func checkC09(run *h.Run) {
 	run.Cov["evaluations"] = cases*2 + seqTrans
 	run.Cov["distinct_nontrivial"] = nontriv + seqStates
 	run.Cov["exhaustive"] = true
-	run.Cov["rule"] = fmt.Sprintf("E1: configurations (allowed methods {computed,[GET],[GET,PUT]} x allowed headers {none,[X-A],[X-A,X-B],[*]} x cookies x router) x requests (3 URLs x allowed/case-variant/disallowed origin x 6 requested methods x 8 requested-header lists, plus actual requests) against the statement's grant rule, routable methods measured on a filter-less twin; E2: every sequence of <= %d steps over 9 preflights (3 URLs x 3 methods) and 2 route mutations (RemoveRoute / Route of PUT on a dynamic service) on one filter, each preflight answer compared with a fresh filter's on a container with the same routes; E3 (instrumented build): two concurrent preflights through one filter, all schedules within the preemption bound with happens-before race detection. Non-trivial: request from an allowed origin / every history.", depth)
+	run.Cov["rule"] = fmt.Sprintf("E1: configurations (allowed methods {computed,[GET],[GET,PUT]} x allowed headers {none,[X-A],[X-A,X-B],[*]} x cookies x router) x requests (6 URLs incl. routes whose variable has a regular expression with a capturing group x allowed/case-variant/disallowed origin x 6 requested methods x 8 requested-header lists, plus actual requests incl. non-OPTIONS requests carrying Access-Control-Request-Method) against the statement's grant rule, routable methods measured on a filter-less twin; E2: every sequence of <= %d steps over 9 preflights (3 URLs x 3 methods) and 2 route mutations (RemoveRoute / Route of PUT on a dynamic service) on one filter, each preflight answer compared with a fresh filter's on a container with the same routes; E3 (instrumented build): two concurrent preflights through one filter, all schedules within the preemption bound with happens-before race detection. Non-trivial: request from an allowed origin / every history.", depth)
 	run.Assume = []string{"method-name case (get vs GET) is not decided by the statement: either answer accepted", "statement's grant rule transcribed in judgeC09"}
 	if f := e3Part["C09"]; f != nil {
 		f(run)
